@@ -41,7 +41,7 @@ def main():
                 'level_claimed': {
                     'category': meta.get('level', 'model_checking'),
                     'text': meta['text'],
-                    'design_ref': f'DESIGN.md §4 {pid}',
+                    'design_ref': f'DESIGN.md §8.2 row {pid} (as built); §4 {pid} (plan)',
                 },
                 'level_note': meta['note'],
                 'technique': meta.get(
